@@ -3,7 +3,7 @@
 -/
 import Hv.Storage.ChronLemmas
 
-namespace Hv.Storage
+namespace Hv.BlockStore
 
 /-! ### The file a compaction produces -/
 
@@ -401,4 +401,4 @@ theorem onlyTemp_lossy_main (d : Disk) (ops : List FsOp) (h : ∀ o ∈ ops, o.o
     · intro o ho
       exact h o (List.mem_of_mem_take (List.mem_of_mem_drop (List.mem_filter.mp ho).1))
 
-end Hv.Storage
+end Hv.BlockStore
